@@ -67,7 +67,7 @@ var (
 
 func zzC18Queue(firstOp, firstPeer int) {
 	n := zzverif.Bound("headers", 2, 3)
-	ops := zzverif.Bound("queueOps", 3, 5)
+	ops := zzverif.Bound("queueOps", 3, 3)
 	if zzC18Headers > 0 {
 		n, ops = zzC18Headers, zzC18Ops
 	}
